@@ -150,7 +150,9 @@ XercesDocumentWrapper::create(
 
 XercesDocumentWrapper::~XercesDocumentWrapper()
 {
-    destroyWrapper();
+    // Not destroyWrapper(): it creates a new navigator for the
+    // document, and a destructor must not allocate.
+    destroyWrapperNodes();
 }
 
 
@@ -277,6 +279,17 @@ XercesDocumentWrapper::mapNode(const DOMElementType*    theXercesNode) const
 void
 XercesDocumentWrapper::destroyWrapper()
 {
+    destroyWrapperNodes();
+
+    // Create a new navigator for the document itself...
+    m_navigator = m_navigatorAllocator.create(this);
+}
+
+
+
+void
+XercesDocumentWrapper::destroyWrapperNodes()
+{
     using std::for_each;
 
     // Set this to null, since it will be deleted
@@ -293,10 +306,10 @@ XercesDocumentWrapper::destroyWrapper()
     // Clear everything out, since we just delete everything...
     m_nodes.clear();
 
-    // Clear out all of the navigators, except ours...
+    // Clear out all of the navigators, including ours...
     m_navigatorAllocator.reset();
 
-    m_navigator = m_navigatorAllocator.create(this);
+    m_navigator = 0;
 
     // Clear the node map...
     m_nodeMap.clear();
